@@ -101,11 +101,12 @@ Lemma rn_update_frame : forall pl p rn, rn_store (rn_update pl p rn) = rn_store 
 Proof. intros; split; reflexivity. Qed.
 
 (* with_period only touches the period map *)
-Lemma with_period_spec : forall A pm D r pl p s rn (f : periodNode -> res (periodNode * A)) (Q : A -> Prop),
+Lemma with_period_spec : forall A pm D r pl p s rn (f : periodNode -> res (periodNode * A)) (Q : periodNode -> A -> Prop),
   RNInv pm D r rn ->
-  (forall pn, PNInv D r p pn -> wp (f pn) (fun '(pn', a) => PNInv D r p pn' /\ Q a)) ->
+  (forall pn, PNInv D r p pn -> wp (f pn) (fun '(pn', a) => PNInv D r p pn' /\ Q pn' a)) ->
   wp (with_period pl p s rn f)
-     (fun '(rn', a) => RNInv pm D r rn' /\ rn_store rn' = rn_store rn /\ rn_fresh rn' = rn_fresh rn /\ Q a).
+     (fun '(rn', a) => RNInv pm D r rn' /\ rn_store rn' = rn_store rn /\ rn_fresh rn' = rn_fresh rn /\
+                       exists pn', aget N.eqb p (rn_periods rn') = Some pn' /\ Q pn' a).
 Proof.
   intros A pm D r pl p s rn f Q I HF. unfold with_period.
   pose proof (rn_update_inv pm D r pl p rn I) as I1.
@@ -113,8 +114,9 @@ Proof.
   apply (aget_In N.eqb N.eqb_eq) in G.
   apply wp_bind. eapply wp_mono; [apply HF; apply pn_update_inv; eapply (rni_p _ _ _ _ I1); eauto|].
   intros [pn' a] [P1 P2]; simpl. split; [|split; [|split]]; auto.
-  destruct I1 as [A1 B1 C1]; constructor; simpl; auto.
-  intros p' pn'' H. apply aset_In in H. destruct H as [[? ?]|H]; subst; auto.
+  - destruct I1 as [A1 B1 C1]; constructor; simpl; auto.
+    intros p' pn'' H. apply aset_In in H. destruct H as [[? ?]|H]; subst; auto.
+  - exists pn'; split; auto. apply (aget_aset_same N.eqb N.eqb_eq).
 Qed.
 
 Lemma fresher_than_cases : forall e o, wp (fresher_than e o) (fun _ => True).
@@ -127,10 +129,10 @@ Lemma rn_vote_accepted_spec : forall pm D r pl rn x,
 Proof.
   intros pm D r pl rn x I XD XR. unfold rn_vote_accepted.
   apply wp_bind. eapply wp_mono.
-  - apply (with_period_spec _ pm D r pl (vt_per x) 0 rn _ (thr_post pm D r)); auto.
+  - apply (with_period_spec _ pm D r pl (vt_per x) 0 rn _ (fun _ => thr_post pm D r)); auto.
     intros pn P. eapply wp_mono; [apply (pn_vote_accepted_spec pm D r (vt_per x)); auto|].
     intros [pn' oth] H; exact H.
-  - intros [rn2 oth] (I2 & S2 & F2 & TP); simpl.
+  - intros [rn2 oth] (I2 & S2 & F2 & pn' & _ & TP); simpl.
     destruct oth as [th|]; simpl.
     + apply wp_bind. eapply wp_mono; [apply fresher_than_cases|]. intros fb _.
       pose proof (rn_update_inv pm D r pl 0 rn2 I2) as [A B C].
@@ -148,18 +150,20 @@ Proof.
   apply aset_In in I. destruct I as [[? ?]|I]; subst; auto. apply RNInv_zero.
 Qed.
 
-Lemma with_round_spec : forall A pm D pl r p rt (f : roundNode -> res (roundNode * A)) (Q : A -> Prop),
+Lemma with_round_spec : forall A pm D pl r p rt (f : roundNode -> res (roundNode * A)) (Q : roundNode -> A -> Prop),
   RInv pm D rt ->
-  (forall rn, RNInv pm D r rn -> wp (f rn) (fun '(rn', a) => RNInv pm D r rn' /\ Q a)) ->
-  wp (with_round pm pl r p rt f) (fun '(rt', a) => RInv pm D rt' /\ Q a).
+  (forall rn, RNInv pm D r rn -> wp (f rn) (fun '(rn', a) => RNInv pm D r rn' /\ Q rn' a)) ->
+  wp (with_round pm pl r p rt f)
+     (fun '(rt', a) => RInv pm D rt' /\ exists rn', aget N.eqb r rt' = Some rn' /\ Q rn' a).
 Proof.
   intros A pm D pl r p rt f Q I HF. unfold with_round.
   pose proof (root_update_inv pm D pl r rt I) as I1.
   destruct (aget N.eqb r (root_update pm pl r rt)) as [rn|] eqn:G; [|apply wp_panic].
   apply (aget_In N.eqb N.eqb_eq) in G.
   apply wp_bind. eapply wp_mono; [apply HF; apply rn_update_inv; apply I1; auto|].
-  intros [rn' a] [P1 P2]; simpl. split; auto.
-  intros r' rn'' H. apply aset_In in H. destruct H as [[? ?]|H]; subst; auto.
+  intros [rn' a] [P1 P2]; simpl. split.
+  - intros r' rn'' H. apply aset_In in H. destruct H as [[? ?]|H]; subst; auto.
+  - exists rn'; split; auto. apply (aget_aset_same N.eqb N.eqb_eq).
 Qed.
 
 (* ---------- the proposal store keeps [SInv] ---------- *)
